@@ -790,11 +790,11 @@ func (fx *Fx) specCall(env *SpecEnv, e *SCall) Val {
 			return Val{T: evTerm(id.Name, arg(0).T, a0, a1, ""), S: "Ev"}
 		case "Close":
 			return Val{T: evTerm("Close", arg(0).T, "", "", ""), S: "Ev"}
-		case "isSend", "isRecv", "isClose", "isTrace", "isSpawn", "isLock", "isUnlock", "isWgAdd", "isWgDone", "isWgWait", "isCall", "isOther":
+		case "isSend", "isRecv", "isClose", "isTrace", "isSpawn", "isLock", "isUnlock", "isWgAdd", "isWgDone", "isWgWait", "isCall", "isOther", "isFnCall":
 			return Val{T: fmt.Sprintf("(= (ev_kind %s) %d)", arg(0).T, evKinds[strings.TrimPrefix(id.Name, "is")]), S: "Bool", GT: boolT}
 		case "isOpaque":
 			// calls of function values and events of unknown code
-			return Val{T: fmt.Sprintf("(>= (ev_kind %s) %d)", arg(0).T, evKinds["Call"]), S: "Bool", GT: boolT}
+			return Val{T: fmt.Sprintf("(>= (ev_kind %s) %d)", arg(0).T, evKinds["Other"]), S: "Bool", GT: boolT}
 		case "evch":
 			return Val{T: "(ev_ch " + arg(0).T + ")", S: "Int", GT: intT}
 		case "evval":
@@ -909,6 +909,30 @@ func (fx *Fx) specCall(env *SpecEnv, e *SCall) Val {
 				idx = arg(1).T
 			}
 			return Val{T: fmt.Sprintf("(select (select %s %d) %s)", st.heap(heapName, cntSort), k, idx), S: "Int", GT: intT}
+		case "visited":
+			// visited(N, k): key k of the map ranged over by loop N has been visited (in a completed or the current iteration)
+			n, ok := e.Args[0].(*SInt)
+			if !ok {
+				sfail("visited(N, k)")
+			}
+			g, ok := st.ghost["b:mvis"+n.V]
+			if !ok {
+				sfail("visited(%s, ...): loop %s is not a range over a map in scope", n.V, n.V)
+			}
+			return Val{T: fmt.Sprintf("(select %s %s)", g, arg(1).T), S: "Bool", GT: boolT}
+		case "atentry":
+			// atentry(N, e): e evaluated in the state in which loop N was entered (before its first iteration)
+			n, ok := e.Args[0].(*SInt)
+			if !ok {
+				sfail("atentry(N, e): N must be a loop ordinal")
+			}
+			hs := fx.loopEntries[n.V]
+			if hs == nil {
+				sfail("atentry(%s, ...): not inside loop %s", n.V, n.V)
+			}
+			nn := *env
+			nn.st, nn.inOld = hs, false
+			return fx.specEval(&nn, e.Args[1])
 		case "athead":
 			// athead(N, e): e evaluated at the head of the current iteration of loop N
 			n, ok := e.Args[0].(*SInt)
@@ -1206,9 +1230,27 @@ func (fx *Fx) specCall(env *SpecEnv, e *SCall) Val {
 				if !ok {
 					sfail("pointer-receiver method %s on a non-variable struct value", sel.Sel)
 				}
-				name := "addr_local_" + sanitize(id.Name)
-				c.declareConst(name, "Int")
-				x = Val{T: name, S: "Int", GT: types.NewPointer(x.GT)}
+				// the variable lives on the heap when its address is taken (implicitly by such calls): its cell reference
+				var cell string
+				for o, t := range env.st.vars {
+					if o.Name() == id.Name && c.boxedVars[o] {
+						cell = t
+					}
+				}
+				if cell == "" && fx.entry != nil {
+					for o, t := range fx.entry.vars {
+						if o.Name() == id.Name && c.boxedVars[o] {
+							cell = t
+						}
+					}
+				}
+				if cell != "" {
+					x = Val{T: cell, S: "Int", GT: types.NewPointer(x.GT)}
+				} else {
+					name := "addr_local_" + sanitize(id.Name)
+					c.declareConst(name, "Int")
+					x = Val{T: name, S: "Int", GT: types.NewPointer(x.GT)}
+				}
 			}
 		}
 		return fx.specPureCall(env, fn, &x, args)
